@@ -22,6 +22,9 @@ def setup():
         if not which(tool):
             print("missing tool", tool); ok = False
     specs = sorted(glob.glob(os.path.join(core.VERIF, "spec", "*", "*.tla")))
+    # some trace specifications EXTEND an *Ops module of another family (ParseTrace -> StringOps, FmtOps); the drivers
+    # put that family on the library path, so the syntax check has to see every family, too
+    tlc.COMMON = os.pathsep.join([tlc.COMMON] + sorted(d for d in glob.glob(os.path.join(core.VERIF, "spec", "*")) if os.path.isdir(d)))
     for s in specs:
         d, m = os.path.dirname(s), os.path.basename(s)[:-4]
         good, out = tlc.sany(d, m)
